@@ -129,3 +129,36 @@ Fixpoint expand_mvn (f : list (list Qc) -> list Qc -> gprog val) (p : prog) : pr
       | _ => Draw dr (fun v => expand_mvn f (k v))
       end
   end.
+
+(* ---------------------------------------------------------------- vocabulary of the source translation of the wrapper class
+   SparseDrugCombo (Generated/SrcGibbsObj.v, configurations C08_SDC_...): the object is the record of the seven attributes its
+   constructor assigns; `wrapped_model` is the LegacySparseDrugComboImpl object ([pyimpl], Model/Gibbs.v) *)
+Record pysdc := { sdc_n_dims : Z; sdc_n_treatments : Z; sdc_n_samples : Z; sdc_rng : option pygen; sdc_predict_interactions : bool; sdc_interaction_log_transform : bool; sdc_wrapped : pyimpl }.
+Definition set_sdc_n_dims (o : pysdc) x : pysdc := {| sdc_n_dims := x; sdc_n_treatments := sdc_n_treatments o; sdc_n_samples := sdc_n_samples o; sdc_rng := sdc_rng o; sdc_predict_interactions := sdc_predict_interactions o; sdc_interaction_log_transform := sdc_interaction_log_transform o; sdc_wrapped := sdc_wrapped o |}.
+Definition set_sdc_n_treatments (o : pysdc) x : pysdc := {| sdc_n_dims := sdc_n_dims o; sdc_n_treatments := x; sdc_n_samples := sdc_n_samples o; sdc_rng := sdc_rng o; sdc_predict_interactions := sdc_predict_interactions o; sdc_interaction_log_transform := sdc_interaction_log_transform o; sdc_wrapped := sdc_wrapped o |}.
+Definition set_sdc_n_samples (o : pysdc) x : pysdc := {| sdc_n_dims := sdc_n_dims o; sdc_n_treatments := sdc_n_treatments o; sdc_n_samples := x; sdc_rng := sdc_rng o; sdc_predict_interactions := sdc_predict_interactions o; sdc_interaction_log_transform := sdc_interaction_log_transform o; sdc_wrapped := sdc_wrapped o |}.
+Definition set_sdc_rng (o : pysdc) x : pysdc := {| sdc_n_dims := sdc_n_dims o; sdc_n_treatments := sdc_n_treatments o; sdc_n_samples := sdc_n_samples o; sdc_rng := x; sdc_predict_interactions := sdc_predict_interactions o; sdc_interaction_log_transform := sdc_interaction_log_transform o; sdc_wrapped := sdc_wrapped o |}.
+Definition set_sdc_predict_interactions (o : pysdc) x : pysdc := {| sdc_n_dims := sdc_n_dims o; sdc_n_treatments := sdc_n_treatments o; sdc_n_samples := sdc_n_samples o; sdc_rng := sdc_rng o; sdc_predict_interactions := x; sdc_interaction_log_transform := sdc_interaction_log_transform o; sdc_wrapped := sdc_wrapped o |}.
+Definition set_sdc_interaction_log_transform (o : pysdc) x : pysdc := {| sdc_n_dims := sdc_n_dims o; sdc_n_treatments := sdc_n_treatments o; sdc_n_samples := sdc_n_samples o; sdc_rng := sdc_rng o; sdc_predict_interactions := sdc_predict_interactions o; sdc_interaction_log_transform := x; sdc_wrapped := sdc_wrapped o |}.
+Definition set_sdc_wrapped (o : pysdc) x : pysdc := {| sdc_n_dims := sdc_n_dims o; sdc_n_treatments := sdc_n_treatments o; sdc_n_samples := sdc_n_samples o; sdc_rng := sdc_rng o; sdc_predict_interactions := sdc_predict_interactions o; sdc_interaction_log_transform := sdc_interaction_log_transform o; sdc_wrapped := x |}.
+(* a new instance before its __init__ ran (object.__new__): no attribute yet - every field at a blank value *)
+Definition obs_blank : pyobs := obs_empty.
+Definition st_blank : st :=
+  {| W := []; W0 := []; V2 := []; V1 := []; V0 := []; alpha := 0; prec := 0; tau := []; tau0 := 0; phi2 := []; phi1 := []; phi0 := [];
+     eta2 := []; eta1 := []; eta0 := 0; gam := []; Mu := [] |}.
+Definition pi_blank : pyimpl :=
+  {| pi_D := 0%Z; pi_ndd := 0%Z; pi_ncl := 0%Z; pi_minMu := 0; pi_maxMu := 0; pi_a0 := 0; pi_b0 := 0; pi_individual_eff := false;
+     pi_intercept := false; pi_fake_intercept := false; pi_local_shrinkage := false; pi_mult_gamma_proc := false; pi_steps := 0%Z;
+     pi_obs := obs_blank; pi_st := st_blank |}.
+(* a method call on the wrapped object mutates it in place: the wrapper goes on holding the updated object *)
+Definition sdc_on_wrapped (o : pysdc) (r : result pyimpl) : result pysdc :=
+  match r with Ok w => Ok (set_sdc_wrapped o w) | Err t => Err t end.
+(* ... for mcmc_step, which the first part translates on the sampler state of the wrapped object (its step counter, which
+   nothing reads, is not carried) *)
+Definition sdc_with_state (o : pysdc) (s : st) : pysdc := set_sdc_wrapped o (set_pi_st (sdc_wrapped o) s).
+(* the object SparseDrugCombo.__init__ leaves behind *)
+Definition sdc_init_obj (n_samples n_treatments D : nat) (fake_intercept individual_eff mult_gamma_proc local_shrinkage : bool)
+    (a0 b0 minMu maxMu : Qc) (rng : option pygen) (predict_interactions interaction_log_transform intercept : bool) : pysdc :=
+  {| sdc_n_dims := Z.of_nat D; sdc_n_treatments := Z.of_nat n_treatments; sdc_n_samples := Z.of_nat n_samples; sdc_rng := rng;
+     sdc_predict_interactions := predict_interactions; sdc_interaction_log_transform := interaction_log_transform;
+     sdc_wrapped := init_obj D n_treatments n_samples intercept fake_intercept individual_eff mult_gamma_proc local_shrinkage a0 b0 minMu maxMu |}.
